@@ -33,6 +33,9 @@ void harness(void) {
 	if (res == KSI_OK) REACH("aggregation chain accepted"); else REACH("aggregation chain rejected");
 	if (res == KSI_OK && g_len > 2) REACH("accepted, longer chain");
 	if (res != KSI_OK && !g_env_failed) REACH("rejected by level rule");
+	/* (audit builderY, dfcc __invalid_ptr sharing: dataHasher_addLinkImprint has the pointer target g_last_add_ptr, which no clause constrains) outcomes at a LATER link */
+	if (res != KSI_OK && g_link_bad && g_calls >= 2) REACH("the sibling of a later link cannot be fed (replaced dataHasher_addLinkImprint fails after it succeeded)");
+	if (res != KSI_OK && g_env_failed && g_calls >= 2) REACH("environment failure at a later link");
 }
 #endif
 
@@ -48,5 +51,7 @@ void harness(void) {
 	res = aggregateChain(ctx, &lst, (const KSI_DataHash *)g_input_hash_obj, 0xff, -1, 1, &endLevel, &out);
 	if (res == KSI_OK) REACH("calendar chain accepted"); else REACH("calendar chain rejected");
 	if (res == KSI_OK && g_len > 2) REACH("accepted, longer chain");
+	/* (audit builderY) outcome of the replaced dataHasher_addLinkImprint at a LATER link */
+	if (res != KSI_OK && g_link_bad && g_calls >= 2) REACH("the sibling of a later link cannot be fed");
 }
 #endif
